@@ -20,9 +20,79 @@ func Recognize(s string) (*T, bool) {
 	return t, true
 }
 
+// Diagnose says why s is not a signature of the grammar: the offset of the
+// first byte the recogniser cannot use (len(s) when the input ends too early)
+// and the position class it was at:
+//
+//	type                        a type had to start here
+//	list-close, map-close       "]" / "}" had to follow
+//	struct-name:first           first character of a struct name
+//	struct-name:later           after the characters of a struct name ("<", "," or ">" had to follow)
+//	template-parameter:first    first character of the parameter of a template-style name
+//	template-parameter:later    after the characters of that parameter (">" had to follow)
+//	struct-name:after-template  after the ">" of a template-style name ("," or ">" had to follow)
+//	member-name:first           first character of a member name
+//	member-name:later           after the characters of a member name ("," or ">" had to follow)
+//	arity                       the closing ">" of a struct whose names and types differ in number
+//	depth                       nesting deeper than the recogniser follows
+//	trailing                    one complete type, and then something more
+//
+// where is "" (and pos -1) when s is a signature.
+func Diagnose(s string) (pos int, where string) {
+	p := &rparser{s: s}
+	t := p.typ(0)
+	switch {
+	case t == nil:
+		return p.errPos, p.errWhere
+	case p.i != len(s):
+		return p.i, "trailing"
+	}
+	return -1, ""
+}
+
+// ByteClass is the character class of the byte at offset i of s, as far as
+// names are concerned: letter, digit, underscore, between-Z-and-a (the other
+// five characters of the ASCII range A-z: [ \ ] ^ and the back quote),
+// punctuation (any other printable ASCII character), blank (space, \t \n \v
+// \f \r), control (the other bytes below 0x20, 0x7f), non-ascii (0x80 and
+// above), end-of-input.
+func ByteClass(s string, i int) string {
+	if i < 0 || i >= len(s) {
+		return "end-of-input"
+	}
+	switch c := s[i]; {
+	case isLetter(c):
+		return "letter"
+	case c >= '0' && c <= '9':
+		return "digit"
+	case c == '_':
+		return "underscore"
+	case c > 'Z' && c < 'a':
+		return "between-Z-and-a"
+	case c >= 0x80:
+		return "non-ascii"
+	case c == ' ' || c >= '\t' && c <= '\r':
+		return "blank"
+	case c < 0x20 || c == 0x7f:
+		return "control"
+	}
+	return "punctuation"
+}
+
 type rparser struct {
 	s string
 	i int
+	// first failure (the recogniser never backtracks): offset and position class
+	errPos   int
+	errWhere string
+}
+
+// fail records the first failure and returns nil.
+func (p *rparser) fail(where string) *T {
+	if p.errWhere == "" {
+		p.errPos, p.errWhere = p.i, where
+	}
+	return nil
 }
 
 func (p *rparser) peek() byte {
@@ -48,7 +118,7 @@ func (p *rparser) ident() string {
 
 func (p *rparser) typ(depth int) *T {
 	if depth > 64 {
-		return nil
+		return p.fail("depth")
 	}
 	c := p.peek()
 	switch {
@@ -58,8 +128,11 @@ func (p *rparser) typ(depth int) *T {
 	case c == '[':
 		p.i++
 		e := p.typ(depth + 1)
-		if e == nil || p.peek() != ']' {
+		if e == nil {
 			return nil
+		}
+		if p.peek() != ']' {
+			return p.fail("list-close")
 		}
 		p.i++
 		return L(e)
@@ -70,8 +143,11 @@ func (p *rparser) typ(depth int) *T {
 			return nil
 		}
 		v := p.typ(depth + 1)
-		if v == nil || p.peek() != '}' {
+		if v == nil {
 			return nil
+		}
+		if p.peek() != '}' {
+			return p.fail("map-close")
 		}
 		p.i++
 		return M(k, v)
@@ -92,33 +168,40 @@ func (p *rparser) typ(depth int) *T {
 		p.i++
 		name := p.ident()
 		if name == "" {
-			return nil
+			return p.fail("struct-name:first")
 		}
+		after := "struct-name:later"
 		if p.peek() == '<' {
-			save := p.i
 			p.i++
 			arg := p.ident()
-			if arg == "" || p.peek() != '>' {
-				p.i = save
-				return nil
+			if arg == "" {
+				return p.fail("template-parameter:first")
+			}
+			if p.peek() != '>' {
+				return p.fail("template-parameter:later")
 			}
 			p.i++
 			name += "<" + arg + ">"
+			after = "struct-name:after-template"
 		}
 		var fields []string
 		for p.peek() == ',' {
 			p.i++
 			f := p.ident()
 			if f == "" {
-				return nil
+				return p.fail("member-name:first")
 			}
 			fields = append(fields, f)
+			after = "member-name:later"
 		}
-		if p.peek() != '>' || len(fields) != len(m) {
-			return nil
+		if p.peek() != '>' {
+			return p.fail(after)
+		}
+		if len(fields) != len(m) {
+			return p.fail("arity")
 		}
 		p.i++
 		return St(name, fields, m...)
 	}
-	return nil
+	return p.fail("type")
 }
